@@ -249,7 +249,7 @@ func cmdCrashSimple(fs *flag.FlagSet, args []string) {
 				}
 				text = fmt.Sprintf("write %d %d %d", f, off, n)
 				good = guardedCall(func() {
-					st = srv.NFSPROC3_WRITE(nfstypes.WRITE3args{File: fhOf(f), Offset: nfstypes.Offset3(off), Count: nfstypes.Count3(n), Stable: nfstypes.FILE_SYNC, Data: data}).Status
+					st = srv.NFSPROC3_WRITE(nfstypes.WRITE3args{File: fhOf(f), Offset: nfstypes.Offset3(off), Count: nfstypes.Count3(n), Stable: nfstypes.Stable_how(r.Intn(3)), Data: data}).Status
 				})
 				if good && st == 0 && off+uint64(n) > sizes[f] {
 					sizes[f] = off + uint64(n)
